@@ -388,10 +388,14 @@ impl<'a> FormatFields<'a> for JsonFields {
         // then, we could store fields as JSON values, and add to them
         // without having to parse and re-serialize.
         let mut new = String::new();
-        let map: BTreeMap<&'_ str, serde_json::Value> =
+        // The keys are deserialized into owned `String`s: a field name that
+        // needs escaping in JSON (e.g. one containing a quote) cannot be
+        // borrowed from the stored string.
+        let map: BTreeMap<String, serde_json::Value> =
             serde_json::from_str(current).map_err(|_| fmt::Error)?;
+        let (names, values): (Vec<String>, Vec<serde_json::Value>) = map.into_iter().unzip();
         let mut v = JsonVisitor::new(&mut new);
-        v.values = map;
+        v.values = names.iter().map(String::as_str).zip(values).collect();
         fields.record(&mut v);
         v.finish()?;
         current.fields = new;
